@@ -509,6 +509,50 @@ func c18Run(c c18Case, st *fw.Stats) []fw.Viol {
 				add("explicit:source", fmt.Sprintf("Context.%s bound Name=%q err=%v, expected %q", eb, obj.Name, err, want))
 			}
 		}
+		if c.Format == "xml" || c.Format == "json" {
+			// other spellings of one document: every one of them encodes the same value and must bind to it
+			want := c18Val{ID: 7, Name: "a b<c", On: true, Tags: []int{1, 2}}
+			docs := []string{
+				`<v><id>7</id><name>a b&lt;c</name><on>true</on><tags>1</tags><tags>2</tags></v>`,
+				`<?xml version="1.0" encoding="UTF-8"?>` + "\n" + `<v><id>7</id><name>a b&lt;c</name><on>true</on><tags>1</tags><tags>2</tags></v>`,
+				`<!-- lead --><v><id>7</id><name>a b&lt;c</name><on>true</on><tags>1</tags><tags>2</tags></v>`,
+				`<v><id>7</id><name>a b&lt;c</name><on>true</on><tags>1</tags><tags>2</tags></v><!-- trailing comment -->`,
+				`<v><id>7</id><name>a b&lt;c</name><on>true</on><tags>1</tags><tags>2</tags></v><?end of="document"?>`,
+				`<v><id>7</id><name>a b&lt;c</name><on>true</on><tags>1</tags><tags>2</tags></v>` + "\n\n \t",
+				"<v>\n  <id>7</id>\n  <name>a b&lt;c</name>\n  <on>true</on>\n  <tags>1</tags>\n  <tags>2</tags>\n</v>\n<!-- c -->\n",
+				`<v><id>7</id><name><![CDATA[a b<c]]></name><on>true</on><tags>1</tags><tags>2</tags></v>`,
+				`<v><id>7</id><name>a b&#60;c</name><on>true</on><!-- inner --><tags>1</tags><tags>2</tags></v>`,
+				`<v><name>a b&lt;c</name><tags>1</tags><id>7</id><tags>2</tags><on>true</on></v>`,
+			}
+			ct := "application/xml"
+			if c.Format == "json" {
+				ct = "application/json"
+				docs = []string{
+					`{"id":7,"name":"a b<c","on":true,"tags":[1,2]}`,
+					`{"id":7,"name":"a b<c","on":true,"tags":[1,2]}` + "\n",
+					" \t\n" + `{ "id" : 7 , "name" : "a b<c" , "on" : true , "tags" : [ 1 , 2 ] }` + " \n ",
+					`{"tags":[1,2],"on":true,"name":"a b<c","id":7}`,
+					`{"id":7,"name":"a\u0020b\u003cc","on":true,"tags":[1,2]}`,
+					`{"id":7,"name":"a b<c","on":true,"tags":[1,2],"unknown":{"x":[null]}}`,
+				}
+			}
+			for _, doc := range docs {
+				st.Evals++
+				st.Nontrivial++
+				req := httptest.NewRequest("POST", "/x", strings.NewReader(doc))
+				req.Header.Set("Content-Type", ct)
+				var got c18Val
+				var err error
+				if pv := try(func() { err = binding.Auto(req, &got) }); pv != nil {
+					add("roundtrip:panic", fmt.Sprintf("%s document %q: Auto panicked: %v", c.Format, doc, pv))
+					continue
+				}
+				got.XMLName = xml.Name{}
+				if err != nil || got.ID != want.ID || got.Name != want.Name || got.On != want.On || fmt.Sprint(got.Tags) != fmt.Sprint(want.Tags) {
+					add("roundtrip:"+c.Format+":equivalent-encoding", fmt.Sprintf("%s: the well-formed document %q encodes %+v but binds to %+v (err=%v)", c.Format, doc, want, got, err))
+				}
+			}
+		}
 		if c.Format == "xml" {
 			// fields named like HTML void elements round-trip like any other
 			for _, vals := range [][4]string{{"a", "b", "c", "d"}, {"", "x", "", "y"}, {"l<i>nk", "&amp;", "é", "z"}} {
@@ -828,7 +872,7 @@ var c18Spec = fw.Spec[c18Case]{
 	ID:      "C18",
 	Level:   "model_checking",
 	Workers: 1,
-	Rule: "complete enumeration: decision table 19 method tokens (the nine standard ones, extension methods, other spellings, empty) x 22 Content-Type strings (the unsupported ones include sub-types spelled like registered binder names) x query present/absent, every source carrying a different value; requests with a history (form parsed before the method became body-less / the parsed form edited; a body reader that failed half way before the next binds; a middleware calling one of 11 data-reading context helpers - FormParams with and without except lists, Post, PostParams, Query, QueryValues, ParseMultipartForm, FormFile - before the handler binds, x urlencoded / multipart / query x 5 methods); all sequences of <=3 (thorough 4) binds over 6 sources of a struct whose field has a different name in every source's tag; round trip of all values of a struct over int{0,1,-7,2^31} x 9 strings (unicode, separators, markup, quotes) x bool x 4 int slices, and of 12 string lists (one-element lists holding , ; | space brackets included) x 2 notes, through query / urlencoded / multipart / JSON / XML; all byte strings of length <=4 (thorough 5) over 14 bytes as body per format (must not panic; malformed JSON/XML must yield an error); validator on/off reached through every history of <=3 switch operations {ResetValidator, DisableValidator, assign a custom validator, assign nil} x values on both sides of each rule and a completely empty value set; " +
+	Rule: "complete enumeration: decision table 19 method tokens (the nine standard ones, extension methods, other spellings, empty) x 22 Content-Type strings (the unsupported ones include sub-types spelled like registered binder names) x query present/absent, every source carrying a different value; requests with a history (form parsed before the method became body-less / the parsed form edited; a body reader that failed half way before the next binds; a middleware calling one of 11 data-reading context helpers - FormParams with and without except lists, Post, PostParams, Query, QueryValues, ParseMultipartForm, FormFile - before the handler binds, x urlencoded / multipart / query x 5 methods); all sequences of <=3 (thorough 4) binds over 6 sources of a struct whose field has a different name in every source's tag; round trip of all values of a struct over int{0,1,-7,2^31} x 9 strings (unicode, separators, markup, quotes) x bool x 4 int slices, 10 equivalent spellings of one XML document and 6 of one JSON document (declaration, comments and processing instructions before and after the root, white space, CDATA, character references, element / key order, escapes, unknown members), and of 12 string lists (one-element lists holding , ; | space brackets included) x 2 notes, through query / urlencoded / multipart / JSON / XML; all byte strings of length <=4 (thorough 5) over 14 bytes as body per format (must not panic; malformed JSON/XML must yield an error); validator on/off reached through every history of <=3 switch operations {ResetValidator, DisableValidator, assign a custom validator, assign nil} x values on both sides of each rule and a completely empty value set; " +
 		"non-trivial = a table row / a round-tripped value / a malformed body",
 	Assume: []string{"media types that merely contain a canonical subtype as a substring (application/jsonp) are outside the alphabet", "runs single-threaded: the validator switch is package-global", "encoding/json and encoding/xml decide what 'malformed' means"},
 	Bounds: func(tier string) map[string]any {
